@@ -598,3 +598,18 @@ func (s *UtxoStore) VerifWF() bool { return s != nil && s.bucketMeta != nil }
 //@   ensures err != nil ==> result == nil
 //@   ensures err == nil ==> fresh(result) && len(result) >= 8 && strOf(result[8:]) == ghosts("txDBBytes", &rec.MsgTx)
 //@   assume err == nil ==> ghostb("unminedFmt", strOf(result))
+
+// ---- C10: flipping a deposit's history record between not-withdrawn and withdrawn deletes exactly the record in the
+// old state and writes the record in the new state (byte 43 of the key is the withdrawn flag)
+//@ func withdrawGame
+//@   props C10 C19
+//@   requires ns != nil && len(history.walletId) == 42
+//@   modifies bmap(ns)
+//@   at "err = ns.Delete(key)" assert[C10] len(key) == 88 && key[43] == 0
+//@   at "return ns.Put(keyGameHistory(&history), valueGameHistory(&history))" assert[C10] history.withdrawn
+//@ func unwithdrawGame
+//@   props C10 C19
+//@   requires ns != nil && len(history.walletId) == 42
+//@   modifies bmap(ns)
+//@   at "err = ns.Delete(key)" assert[C10] len(key) == 88 && key[43] == 1
+//@   at "return ns.Put(keyGameHistory(&history), valueGameHistory(&history))" assert[C10] !history.withdrawn
